@@ -86,6 +86,8 @@ class ExprMixin:
             return v
         if fr.module and fr.module != "<spec>":
             g = self.module_global(fr.module, name)
+            if isinstance(g, ModuleExpr):
+                g = self.eval_module_expr(g, st, fr)
             if g is not UNDEF:
                 return g
             cmod = self.idx.extra.get(fr.module)
@@ -126,6 +128,25 @@ class ExprMixin:
                      "yields_items_of", "mapped", "induct", "assume_axiom", "chunk_off", "defined_len", "is_permutation",
                      "bo_fields", "bo_order", "bo_bytes", "bo_swapped", "bo_value", "bo_big", "bo_little", "bo_native",
                      "bo_names", "machine_little", "approx", "psum", "gl_nodes", "gl_weights", "field_names", "field_type", "field_subshape"}
+
+    def eval_module_expr(self, m, st, fr):
+        """a module-level constant defined by an expression (PI = math.pi; D2R = PI / 180.0): evaluated in the module's scope"""
+        import copy as _copy
+        f2 = _copy.copy(fr)
+        f2.module = m.mod
+        f2.qvars = {}
+        f2.func = None
+        saved = st.env
+        st.env = {}
+        try:
+            res = list(self.ev(m.node, st, f2))
+        except Unsupported:
+            return m
+        finally:
+            st.env = saved
+        if len(res) != 1:
+            return m
+        return res[0][1]
 
     def load_c_sibling(self, modname, cmod, name):
         from . import cfront
@@ -369,8 +390,18 @@ class ExprMixin:
             if real:
                 q = z3.ToReal(z3.ToInt(x / y))   # floor for y>0
                 bc = as_const(y)
-                if bc is None or bc <= 0:
-                    raise Unsupported("real % with non-constant/negative modulus", node)
+                if bc is None:
+                    # modulus known only symbolically (2*pi): the result is named by an uninterpreted function with the
+                    # defining facts of Python's float % for a positive modulus
+                    from .nplib import ufunc, R
+                    r_ = ufunc("RMOD", R, R, R)(x, y)
+                    k_ = ufunc("RMODQ", R, R, z3.IntSort())(x, y)
+                    fact = z3.Implies(y > 0, z3.And(r_ >= 0, r_ < y, x == y * z3.ToReal(k_) + r_))
+                    if not any(fact.eq(g) for g in st.pc):
+                        st.pc.append(fact)
+                    return r_
+                if bc <= 0:
+                    raise Unsupported("real % with a non-positive constant modulus", node)
                 return x - y * q
             return py_mod(x, y)
         if opn == "Pow":
@@ -825,6 +856,9 @@ class ExprMixin:
 
     def module_attr(self, mod, attr, node=None):
         name = mod.name
+        if attr == "pi" and name in ("numpy", "np", "math"):
+            from .nplib import PI
+            return PI
         if name in ("numpy", "np"):
             if attr == "little_endian":
                 from .bomodel import MACHINE_LITTLE
